@@ -10,7 +10,7 @@ from collections import deque
 import numpy as np
 
 from mc import tape as T
-from mc.fingerprint import fp
+from mc.fingerprint import fp, fp_merge
 from subjects import stream as SS
 
 
@@ -64,7 +64,7 @@ def bfs(subj, budget, rng_mode, max_chunk, horizon, max_states, util_values, on_
     ops = chunks_of(subj, max_chunk)
     obj0 = fresh(subj, budget, rng_mode, seed)
     frontier = deque([(obj0, (), 0)])
-    seen = {fp(obj0)}
+    seen = {fp_merge(obj0)}
     ntrans = 0
     capped = False
     if on_state:
@@ -96,7 +96,7 @@ def bfs(subj, budget, rng_mode, max_chunk, horizon, max_states, util_values, on_
                     keep = on_transition(obj, chunk, tp, o, res, h2, n) is not False
                 if res[0] != "ok" or not keep:
                     continue
-                k = fp(o)
+                k = fp_merge(o)  # values + sharing structure (aliased attributes have different futures)
                 if k not in seen:
                     if len(seen) >= max_states:
                         capped = True
